@@ -24,7 +24,7 @@ CHECKS = {
          "After every successful instruction of seeded histories the pool's liquidity, every tick's net/gross/initialized flag in every tick array (both encodings, harness-owned decoders) are recomputed from the Position accounts found by scanning the bank and compared; the workload includes Pinocchio repositions (also onto degenerate / inverted ranges, which must be refused), range resets, bundles and locks. Thorough adds the workload under an AddressSanitizer build.",
          SVM, "DESIGN.md#c05"),
  "C06": ("trace monitor: per-step swap records (verif hook) re-priced by an independent oracle and reconciled with balances, pool bookkeeping and the emitted event",
-         "For every successful swap the hook's per-step records are checked against the fee formula and summed; the sums must equal what left the trader, what entered/left the vaults, the growth of protocol fees owed, the LP fee growth (per-step liquidity) and the Traded event; both legs of every two-hop get the same per-pool checks; protocol fee collections must pay exactly the owed amounts and reset them. On transfer-fee pools the vault receives exactly curve amount + fee and, unless the trader's own exact-in amount was used up, the amount taken from the trader is the smallest one that delivers it.",
+         "For every successful swap the hook's per-step records are checked against the fee formula and summed; the sums must equal what left the trader, what entered/left the vaults, the growth of protocol fees owed, the LP fee growth (per-step liquidity) and the Traded event; both legs of every two-hop get the same per-pool checks (a two-hop over one pool, should it ever go through, must have booked both computations; directed out-and-back scenario at an array edge); protocol fee collections must pay exactly the owed amounts and reset them. On transfer-fee pools the vault receives exactly curve amount + fee and, unless the trader's own exact-in amount was used up, the amount taken from the trader is the smallest one that delivers it.",
          SVM + "; per-step amounts are read from the hook inside the swap loop", "DESIGN.md#c06"),
  "C07": ("shadow-ledger monitor in exact arithmetic, independent of the program's accumulators, settled at every position update",
          "An exact ledger credits each position found in the bank with lp_fee*L_i/L_step for every in-range swap step; at every instruction that settles a position the credited fees must not exceed the ledger and may fall short only by the derived rounding bound. Fee accumulators are seeded anywhere in u128 (incl. just below wrap-around) on empty pools.",
